@@ -314,6 +314,9 @@ func (c *concretiser) goValue(t types.Type, term string) string {
 			return "nil"
 		}
 		ct := w.tagType[tag]
+		if ct == nil {
+			return "nil"
+		}
 		if w.sortOf(ct) == SLoc {
 			return c.goValue(ct, "(ival "+term+")")
 		}
